@@ -574,3 +574,85 @@ func H_C16_nestedLoads() {
 	t3, err3 := set.GetTemplate(target)
 	vfAssert(err3 == nil && t3 != nil && t3.Name == target, "the other candidate is still reachable under its own name")
 }
+
+// c16NoCache forgets everything (a custom Cache may evict at any time).
+type c16NoCache struct{}
+
+func (c16NoCache) Get(string) *Template  { return nil }
+func (c16NoCache) Put(string, *Template) {}
+
+// H_C16_reloads: whenever a lookup goes to the loader again - development mode, an
+// evicting custom Cache, a retry after a failed load, Set.Parse pulling in its references -
+// it sees the loader as it is NOW: an edited parent or import of an unchanged file, a file
+// added under an earlier-configured extension, a repaired file.
+//
+//gosym:reach checked
+func H_C16_reloads() {
+	sc := ndChoice("scenario", 5)
+	mode := ndChoice("mode", 2) // 0 development mode, 1 evicting cache
+	l := &c16Loader{exists: map[string]bool{}, openFail: map[string]bool{}, content: map[string]string{}}
+	put := func(p, c string) { l.exists[p], l.content[p] = true, c }
+	opts := []Option{WithTemplateNameExtensions([]string{".tpl", ".txt", ""})}
+	if mode == 0 {
+		opts = append(opts, InDevelopmentMode())
+	} else {
+		opts = append(opts, WithCache(c16NoCache{}))
+	}
+	set := NewSet(l, opts...)
+	render := func(t *Template, err error) string {
+		if err != nil {
+			return "<error>"
+		}
+		var b bytes.Buffer
+		if t.Execute(&b, nil, nil) != nil {
+			return "<error>"
+		}
+		return b.String()
+	}
+	var got1, got2, want1, want2 string
+	switch sc {
+	case 0:
+		// an unchanged child of an edited parent
+		put("/base.tpl", `old[{{ block b() }}x{{ end }}]`)
+		put("/child.tpl", `{{ extends "/base" }}{{ block b() }}c{{ end }}`)
+		got1 = render(set.GetTemplate("/child"))
+		put("/base.tpl", `new[{{ block b() }}x{{ end }}]`)
+		got2 = render(set.GetTemplate("/child"))
+		want1, want2 = "old[c]", "new[c]"
+	case 1:
+		// an unchanged file whose import was edited, pulled in by Set.Parse
+		put("/lib.tpl", `{{ block w() }}one{{ end }}`)
+		put("/mid.tpl", `{{ import "/lib" }}{{ yield w() }}`)
+		got1 = render(set.Parse("/p1.tpl", `{{ extends "/mid" }}`))
+		put("/lib.tpl", `{{ block w() }}two{{ end }}`)
+		got2 = render(set.Parse("/p2.tpl", `{{ extends "/mid" }}`))
+		want1, want2 = "one", "two"
+	case 2:
+		// a file added under an extension configured earlier than the one that matched before
+		put("/page.txt", `from page.txt`)
+		got1 = render(set.GetTemplate("/page"))
+		put("/page.tpl", `from page.tpl`)
+		got2 = render(set.GetTemplate("/page"))
+		want1, want2 = "from page.txt", "from page.tpl"
+	case 3:
+		// retry after a failed parse, with a valid file now present under an earlier extension
+		put("/mail.txt", `{{ if }}`)
+		got1 = render(set.GetTemplate("/mail"))
+		put("/mail.tpl", `mail.tpl`)
+		got2 = render(set.GetTemplate("/mail"))
+		want1, want2 = "<error>", "mail.tpl"
+	default:
+		// the file itself edited back and forth
+		put("/t.tpl", `v1`)
+		got1 = render(set.GetTemplate("/t"))
+		put("/t.tpl", `v2`)
+		set.GetTemplate("/t")
+		put("/t.tpl", `v1`)
+		got2 = render(set.GetTemplate("/t"))
+		want1, want2 = "v1", "v1"
+	}
+	vfReach("checked")
+	vfNote(got2)
+	vfAssert(got1 == want1, "the first lookup sees the loader's state")
+	vfAssert(got2 == want2, "a lookup that goes to the loader again sees the loader as it is now")
+}
